@@ -337,6 +337,7 @@ class Proc:
         self.started_at = sim.nev
         self.rpc_log = []
         self.pyscript = False
+        self.stash = []
 
     def rel(self, path):
         """Translate a path relative to the process's cwd into a root-relative path."""
@@ -862,7 +863,7 @@ class Sim:
             proc.nact += 1
             await self.gate("proc", f"{proc.label}|{proc.nact}:{op}")
             await self._act(proc, action)
-            if op in ("write", "tr", "cp", "write_partial", "mkdir", "remove"):
+            if op in ("write", "tr", "cp", "write_partial", "mkdir", "remove", "write_stash"):
                 self.snap("fsact")
 
     async def _act(self, proc, action):
@@ -885,7 +886,15 @@ class Sim:
             data = self._read(proc, action[1])
             self._write_data(proc, action[2], data)
         elif op == "write_partial":
-            self._write_data(proc, action[1], b"PARTIAL " + proc.label.encode())
+            self._write_data(proc, action[1], b"PARTIAL")
+        elif op == "stash":
+            # remember what the file holds now (absent counts as content too)
+            try:
+                proc.stash.append(self._read(proc, action[1]))
+            except ScriptExit:
+                proc.stash.append(b"<absent>")
+        elif op == "write_stash":
+            self._write_data(proc, action[1], self._derive(proc, "stash", action[1], proc.stash))
         elif op == "mkdir":
             w.mkdir(proc.rel(action[1]))
         elif op == "remove":
